@@ -461,6 +461,8 @@ def run(ctx):
     ctx.coq_file(os.path.join(C.COQ, "props", "C09.v"))
     bad = C.hygiene()
     ctx.obligation("hygiene: no Admitted/Axiom/Parameter/... in coq/", not bad, "; ".join(bad))
+    from harness import dsfs
+    dsfs.paths_translator(ctx)
     if not ctx.quick():
         from harness import dsedit2_lib as _L
         _L.coqchk(ctx, ["Pq.Proofs.EditHistory"])
